@@ -65,11 +65,22 @@ var (
 	localIfID  = uint64(0x0200000000000001)
 )
 
-// fake pool: always hands out assignedIP; remembers calls (part of the state).
-type pool struct{ allocs, releases int }
+// fake pool: the source of truth for "the address assigned to the session" in
+// peer=pool mode. An address is assigned from Allocate until the next Release;
+// successive allocations alternate between two addresses so that a stale
+// address kept across Down/Up would be noticed.
+type pool struct {
+	allocs, releases int
+	cur              net.IP // nil = nothing assigned at the moment
+}
 
-func (p *pool) Allocate(string) net.IP { p.allocs++; return assignedIP }
-func (p *pool) Release(string)         { p.releases++ }
+func (p *pool) Allocate(string) net.IP {
+	p.cur = net.IPv4(10, 0, 0, byte(50+p.allocs%2)).To4()
+	p.allocs++
+	return p.cur
+}
+
+func (p *pool) Release(string) { p.releases++; p.cur = nil }
 
 // machine is the common surface of the three automata.
 type machine interface {
@@ -247,11 +258,11 @@ func (s *sys) request(name string) reqSpec {
 		case "RCR(0.0.0.0)":
 			return spec(net.IPv4zero.To4())
 		case "RCR(assigned)":
-			return spec(assignedIP)
+			return spec(s.wanted())
 		case "RCR(other)":
 			return spec(otherIP)
 		case "RCR-rej":
-			return spec(assignedIP, vj)
+			return spec(s.wanted(), vj)
 		case "RCR-mixed":
 			return spec(otherIP, dns0, vj)
 		}
@@ -380,7 +391,25 @@ type event struct {
 	renego  bool     // event that must leave Opened (P2)
 }
 
+// refreshAssigned: in pool mode the assigned address is whatever the pool has
+// handed out and not yet got back.
+func (s *sys) refreshAssigned() {
+	if s.pool != nil {
+		s.assigned = s.pool.cur
+	}
+}
+
+// wanted: the address a peer asks for in the "assigned" requests: the assigned
+// one, or (nothing assigned) the address it would typically get.
+func (s *sys) wanted() net.IP {
+	if s.assigned != nil {
+		return s.assigned
+	}
+	return assignedIP
+}
+
 func (s *sys) mkEvent(op string) event {
+	s.refreshAssigned()
 	e := event{op: op}
 	switch op {
 	case "Up", "Open", "TO":
@@ -487,10 +516,6 @@ func (s *sys) Apply(op string) string {
 
 // begin: bookkeeping before the event is delivered.
 func (s *sys) begin(e event) {
-	if s.pool != nil && e.op == "Up" {
-		// the pool hands out assignedIP on the first Up; from then on it is "the address assigned to the session"
-		s.assigned = assignedIP
-	}
 	if e.op != "TO" {
 		s.crRun, s.trRun = 0, 0
 	}
@@ -498,6 +523,7 @@ func (s *sys) begin(e event) {
 
 // end: run the monitors over everything sent since the last scan.
 func (s *sys) end(e event, wasOpened bool) {
+	s.refreshAssigned()
 	s.mu.Lock()
 	newPkts := append([]pkt(nil), s.sent[s.scanned:]...)
 	s.scanned = len(s.sent)
@@ -658,10 +684,11 @@ var skipFields = map[string]bool{
 }
 
 func (s *sys) coarse() string {
+	s.refreshAssigned()
 	d := deepdump.Dump(s.obj, deepdump.Options{IgnoreTimes: true, SkipFields: skipFields, SkipTypes: map[string]bool{"vtime.Timer": true, "c11.pool": true}})
 	p := ""
 	if s.pool != nil {
-		p = fmt.Sprintf("pool(%v,%v)", s.pool.allocs > 0, s.pool.releases > 0)
+		p = fmt.Sprintf("pool(cur=%v,next=%d)", s.pool.cur, s.pool.allocs%2)
 	}
 	return fmt.Sprintf("%s|armed=%v|cr=%v,%v|acked=%v|weAcked=%v|assigned=%v|%s", d, s.timerArmed(), s.haveCR, s.havePrev, s.acked, s.weAcked, s.assigned != nil, p)
 }
@@ -786,7 +813,7 @@ func TestCheck(t *testing.T) {
 	run.Rule = "BFS with fingerprints over the RFC 1661 event alphabet on the real LCP/IPCP/IPv6CP automata (virtual time); monitors P1-P6 on every transition, silent-peer probe in every state; timer-callback versus packet interleavings (preemption bound 2) from every state with an armed restart timer"
 	run.Assumptions = []string{
 		"identifiers do not wrap within one execution (< 256 packets)",
-		"IPCP pool hands out one fixed address per session; release/re-allocation correctness belongs to C01",
+		"IPCP peer=pool: the address assigned to the session is what the (fake) pool handed out at Up() and has not got back by Release(); successive allocations alternate between two addresses",
 		"IPv6CP interface-identifier collision and LCP magic-number collision requests are outside the alphabet (they draw fresh random numbers)",
 	}
 	ms := models(run, t)
